@@ -27,6 +27,9 @@ fn mk_test(inst: u32, fail: bool) -> crate::tksf::TestKsf {
 fn mk_identity(_inst: u32, _fail: bool) -> opaque_ke::ksf::Identity {
     opaque_ke::ksf::Identity
 }
+pub fn mk_argon_pub(inst: u32) -> argon2::Argon2<'static> {
+    mk_argon(inst, false)
+}
 /// instance 0 = Argon2::default(); others = cheaper/different cost parameters
 fn mk_argon(inst: u32, _fail: bool) -> argon2::Argon2<'static> {
     if inst == 0 {
